@@ -46,7 +46,8 @@ ServeFault(r) ==
                              cps |-> 0, cpc |-> 0, ops |-> <<>>, from |-> 1])
             ELSE UNCHANGED <<resps, napply>>
          /\ Record([name |-> "serveFault", id |-> r.id, n |-> nserve[r.id] + 1, c |-> r.from, k |-> k, how |-> mode,
-                    m |-> Cmds(r)[k], ncmd |-> Len(Cmds(r))])
+                    m |-> Cmds(r)[k], ncmd |-> Len(Cmds(r)),
+                    ins |-> \E j \in 1..(k - 1) : Cmds(r)[j] = "insert Operations"])
     /\ UNCHANGED <<cl, dt, oplog, reqs, nsend>>
 
 FNext == \/ (Next /\ UNCHANGED nfault)
